@@ -120,6 +120,11 @@ func propC03(h *H) {
 	n := len(gens)
 	h.St.Pool = n
 	um := HasUserMethod(h.T, "Equal", reflect.Bool) || HasUserMethod(h.T, "Compare", reflect.Int)
+	rt0 := h.T
+	if rt0.Kind() == reflect.Ptr {
+		rt0 = rt0.Elem()
+	}
+	_, rootUser, _ := userMethod(rt0, "Equal", reflect.Bool)
 	M := make([][]int, n)
 	ok := make([][]bool, n)
 	for i := 0; i < n; i++ {
@@ -141,29 +146,43 @@ func propC03(h *H) {
 				h.Violation("range", "", fmt.Sprintf("Compare returned %d", c), x, y)
 			}
 			d := Diff(x, y)
-			// zero <=> Equal
+			refS := RefEqual(x, y, false)
+			sensitive := false
+			if um {
+				sensitive = refS != RefEqual(x, y, true) || refS != RefEqualRootMethod(x, y)
+			}
+			// zero <=> derived Equal (the structural reference only stands in when
+			// no Equal was generated)
+			eqv, haveEq := refS, false
 			if eq.IsValid() {
 				r, pan := Call(eq, gens[i](), gens[j]())
 				if pan == "" {
-					if (c == 0) != r[0].Bool() {
-						h.Violation("zero-iff-equal", fmt.Sprintf("cmp=%d|equal=%v|%s|%s|%s", c, r[0].Bool(), d.Kind, d.Type, d.Ctx),
-							fmt.Sprintf("Compare=%d but derived Equal=%v; first difference at %q", c, r[0].Bool(), d.Path), x, y)
-					}
+					eqv, haveEq = r[0].Bool(), true
 				}
 			}
-			refEq := RefEqual(x, y, true)
-			if (c == 0) != refEq {
-				h.Violation("zero-iff-refequal", fmt.Sprintf("cmp=%d|ref=%v|%s|%s|%s", c, refEq, d.Kind, d.Type, d.Ctx),
-					fmt.Sprintf("Compare=%d but reference equality=%v; first difference at %q", c, refEq, d.Path), x, y)
-			}
-			// natural order at a single differing position
-			if d.Count == 1 && d.Sign != 0 && !refEq && (d.Kind != "len" && d.Kind != "keyset") {
-				if !um || !underUserMethod(h.T, x, y) {
-					h.St.Nontriv++
-					if c != d.Sign {
-						h.Violation("natural-order", fmt.Sprintf("%s|%s|%s|got=%d|want=%d", d.Kind, d.Type, d.Ctx, c, d.Sign),
-							fmt.Sprintf("values differ only at %q (%s); natural order gives %d, Compare=%d", d.Path, d.Kind, d.Sign, c), x, y)
+			if (c == 0) != eqv {
+				switch {
+				case rootUser && refS != RefEqualRootMethod(x, y):
+					// whether the root argument's own methods are consulted is left open
+					h.Outcome("root-method-left-open")
+				case sensitive:
+					par := d.MethodParent("Equal", reflect.Bool)
+					if par == "" {
+						par = d.MethodParent("Compare", reflect.Int)
 					}
+					h.Violation("zero-iff-equal", fmt.Sprintf("cmp=%s|equal=%v|user-method|inside=%s", zs(c), eqv, par),
+						fmt.Sprintf("Compare=%d but derived Equal=%v (derived Equal available: %v); first difference at %q", c, eqv, haveEq, d.Path), x, y)
+				default:
+					h.Violation("zero-iff-equal", fmt.Sprintf("cmp=%s|equal=%v|%s|%s|%s", zs(c), eqv, d.Kind, d.Type, d.Ctx),
+						fmt.Sprintf("Compare=%d but derived Equal=%v (derived Equal available: %v); first difference at %q", c, eqv, haveEq, d.Path), x, y)
+				}
+			}
+			// natural order at a single differing position, for values that Equal distinguishes
+			if d.Count == 1 && d.Sign != 0 && !refS && !eqv && !um && (d.Kind != "len" && d.Kind != "keyset") {
+				h.St.Nontriv++
+				if c != d.Sign {
+					h.Violation("natural-order", fmt.Sprintf("%s|%s|%s|got=%d|want=%d", d.Kind, d.Type, d.Ctx, c, d.Sign),
+						fmt.Sprintf("values differ only at %q (%s); natural order gives %d, Compare=%d", d.Path, d.Kind, d.Sign, c), x, y)
 				}
 			}
 			if cmpc.IsValid() {
@@ -226,6 +245,13 @@ func underUserMethod(t reflect.Type, x, y reflect.Value) bool {
 	return HasUserMethod(t, "Compare", reflect.Int) || HasUserMethod(t, "Equal", reflect.Bool)
 }
 
+func zs(c int) string {
+	if c == 0 {
+		return "zero"
+	}
+	return "nonzero"
+}
+
 func typeShapeKey(t reflect.Type) string { return t.String() }
 
 // ---------------------------------------------------------------- C04
@@ -273,6 +299,13 @@ func reprDiff(x, y reflect.Value) string {
 			}
 			keys := a.MapKeys()
 			sort.Slice(keys, func(i, j int) bool { return Canon(keys[i]) < Canon(keys[j]) })
+			bkeys := b.MapKeys()
+			sort.Slice(bkeys, func(i, j int) bool { return Canon(bkeys[i]) < Canon(bkeys[j]) })
+			for i := range keys {
+				if i < len(bkeys) {
+					walk(Addressable(keys[i]), Addressable(bkeys[i]))
+				}
+			}
 			for _, key := range keys {
 				bv := b.MapIndex(key)
 				if bv.IsValid() {
@@ -302,6 +335,7 @@ func propC04(h *H) {
 	hs := make([]uint64, n)
 	ok := make([]bool, n)
 	tab := map[string]string{}
+	hasMap := containsKind(h.T, reflect.Map, map[reflect.Type]bool{})
 	for i := 0; i < n; i++ {
 		x := gens[i]()
 		before := Canon(x)
@@ -316,9 +350,19 @@ func propC04(h *H) {
 		if Canon(x) != before {
 			h.Violation("hash-modifies-argument", typeShapeKey(h.T), "argument changed by hashing: before "+before, x)
 		}
-		res2, pan := Call(hash, x)
-		if pan == "" && res2[0].Uint() != hs[i] {
-			h.Violation("hash-not-repeatable", typeShapeKey(h.T), fmt.Sprintf("%d then %d", hs[i], res2[0].Uint()), x)
+		// repeat: the generated code ranges over maps, whose iteration order the
+		// runtime re-randomises on every range statement
+		reps := 2
+		if hasMap {
+			reps = 40
+		}
+		for r := 0; r < reps; r++ {
+			res2, pan := Call(hash, x)
+			h.St.Evals++
+			if pan == "" && res2[0].Uint() != hs[i] {
+				h.Violation("hash-not-repeatable", typeShapeKey(h.T), fmt.Sprintf("%d then %d", hs[i], res2[0].Uint()), x)
+				break
+			}
 		}
 		// a fresh rebuild of the same value
 		res3, pan := Call(hash, gens[i]())
@@ -672,4 +716,27 @@ func diffElems(x, y reflect.Value) DiffInfo {
 		return *d
 	}
 	return Diff(x, y)
+}
+
+func containsKind(t reflect.Type, k reflect.Kind, seen map[reflect.Type]bool) bool {
+	if seen[t] {
+		return false
+	}
+	seen[t] = true
+	if t.Kind() == k {
+		return true
+	}
+	switch t.Kind() {
+	case reflect.Ptr, reflect.Slice, reflect.Array:
+		return containsKind(t.Elem(), k, seen)
+	case reflect.Map:
+		return containsKind(t.Key(), k, seen) || containsKind(t.Elem(), k, seen)
+	case reflect.Struct:
+		for i := 0; i < t.NumField(); i++ {
+			if containsKind(t.Field(i).Type, k, seen) {
+				return true
+			}
+		}
+	}
+	return false
 }
